@@ -109,8 +109,8 @@ CHECKS = {
             "the extreme-timestamp clause is unreachable through u32 report timestamps on chain, hence the unit-level timeline", "§5 C27"),
     "C09": ("exploration", "chainsim/scn-exchange",
             SIM + ": liquidation attempts by the keeper on live positions after price moves; a successful liquidation must close the whole position",
-            "Chain part: after every executed increase or non-removing decrease the position must not be liquidatable at the execution prices, and every successful liquidation must have been liquidatable under the liquidation thresholds on the pre-state and must remove the whole position. The reference evaluates check_liquidatable on the SDK's PositionModel of the same account bytes after bringing the fee state up to date with the program's update_fees_state on a fork.",
-            "ADL (third clause) is not covered yet; the reference shares the formula of check_liquidatable with the code under test (different call site)", "§5 C09"),
+            "Chain part: after every executed increase or non-removing decrease the position must not be liquidatable at the execution prices, every successful liquidation must have been liquidatable under the liquidation thresholds on the pre-state and must remove the whole position, and every successful auto-deleverage must have had a pnl-to-pool factor above the ADL limit, strictly lower it and leave it at or above the configured minimum (pnl factors from the SDK MarketModel of the pre/post account bytes). The reference evaluates check_liquidatable on the SDK's PositionModel of the same account bytes after bringing the fee state up to date with the program's update_fees_state on a fork.",
+            "the references share the formulas of check_liquidatable / pnl_factor with the code under test (evaluated at a different call site, on the SDK decoding of the same bytes); ADL is exercised with lowered pnl-factor limits (a parameter set of the swarm)", "§5 C09"),
 }
 
 NA = {
